@@ -358,23 +358,37 @@ example : ∃ b, (buildExpr { ees := [], classes := [] } (.bin (.int "1") "+" (.
         simp at this; subst this; simp [Flat.Row.valOf] at hr)
     (by decide)).2.2.1
 
-/-- BODY level, sub-subset `coreB` (statement lists of return, break, continue, control stop, create without variable,
-    delete, relate / unrelate (+ using); no nested block): in the population of a whole body every key that is
+/-- BODY level, sub-subset `coreB` (statement lists of assignment to a variable / attribute, return, break, continue,
+    control stop, create with / without variable, select from instances, delete, relate / unrelate (+ using); no nested block): in the population of a whole body every key that is
     searched backwards — the supertype an R603 / R801 subtype row names, Block_ID (R602) and Previous_Statement_ID
     (R661) of an ACT_SMT, the `if` of an ACT_EL / ACT_E (R682 / R683) — names a row created EARLIER: it exists (no
     dangling key) and the successor relation has no cycle.
     MISSING for the full statements: exactly-one-subtype as a count, the R661 chain as a list in source order, the block
     tree, the forward links (value / variable operands), and the statements outside `coreB`. -/
 theorem population_keys_wellformed_partial (fc : FCtx) (a : Block) (hc : coreB a = true)
-    (hok : okAll fc none a bodySt = true) :
+    (hok : flatOk fc a = true) :
     ∀ (i : Nat) (r : Flat.Row), (prebuildFlat fc a)[i]? = some r →
       (∀ k, r.valOf = some k → k < i) ∧ (∀ k, r.smtOf = some k → k < i) ∧ (∀ k ∈ skeys r, k < i) :=
-  prebuildFlat_ts fc a hc hok
+  prebuildFlat_ts fc a hc (okAll_of_flatOk fc a hc hok)
 
 example : ∀ k ∈ skeys ((prebuildFlat { ees := [], classes := ["DOG"] }
       (.cons (.createNV "DOG") (.cons (.ret (some (.int "1"))) (.cons .brk .nil))))[5]?.getD (.blk false)), k < 5 :=
   (population_keys_wellformed_partial { ees := [], classes := ["DOG"] }
     (.cons (.createNV "DOG") (.cons (.ret (some (.int "1"))) (.cons .brk .nil))) (by decide) (by decide) 5 _ (by decide)).2.2
+
+/-- every ACT_SMT of the population of a whole `coreB` body has an R603 subtype row, and `subtype(act_smt, 603)` finds
+    it (existence; that there is exactly ONE — as a count — is not proved: the model's `smtSub` takes the first) -/
+theorem statement_subtype_exists_partial (fc : FCtx) (a : Block) (hc : coreB a = true) (hok : flatOk fc a = true)
+    (i b' : Nat) (p : Option Nat) (hi : (prebuildFlat fc a)[i]? = some (.smt b' p)) :
+    ∃ row, smtSub (prebuildFlat fc a) i = some row ∧ row.smtOf = some i :=
+  prebuildFlat_subtypes fc a hc (okAll_of_flatOk fc a hc hok) i b' p hi
+
+example : ∃ row, smtSub (prebuildFlat { ees := [], classes := ["DOG"] }
+      (.cons (.create "d" "DOG") (.cons (.assign (.var "n") (.int "1")) (.cons (.delete "d") .nil)))) 1 = some row ∧
+      row.smtOf = some 1 :=
+  statement_subtype_exists_partial { ees := [], classes := ["DOG"] }
+    (.cons (.create "d" "DOG") (.cons (.assign (.var "n") (.int "1")) (.cons (.delete "d") .nil)))
+    (by decide) (by decide) 1 0 none (by decide)
 
 end Flat
 
